@@ -87,6 +87,30 @@ fn gen_stream() -> StreamPlan {
 
 const BOUND: Duration = Duration::from_secs(40);
 
+/// (a side has closed the connection or the endpoint; the network of this run loses datagrams; when it was closed)
+type Flags = Rc<(std::cell::Cell<bool>, bool, std::cell::Cell<Option<std::time::Instant>>)>;
+
+/// Wait for a task of the run. `false`: it is stranded — still pending 40 s (simulated) after a side closed
+/// the connection or the endpoint, or, on a network without loss, 40 s after the wait began. On a lossy
+/// network and before any close, time proves nothing (retransmission back-off): the wait goes on, and is
+/// given up quietly after 400 s.
+async fn settled<T>(mut t: compio_runtime::JoinHandle<T>, closed: &Flags) -> bool {
+    let started = std::time::Instant::now();
+    loop {
+        if timeout(Duration::from_secs(5), &mut t).await.is_ok() {
+            return true;
+        }
+        let now = std::time::Instant::now();
+        match closed.2.get() {
+            Some(at) if now.duration_since(at) >= BOUND => return false,
+            Some(_) => {}
+            None if !closed.1 && now.duration_since(started) >= BOUND => return false,
+            None if now.duration_since(started) >= BOUND * 10 => return true,
+            None => {}
+        }
+    }
+}
+
 fn quic() -> RunResult {
     let mut cfg = simkernel::KConfig::draw();
     // the network: QUIC recovers from loss and duplication
@@ -141,7 +165,7 @@ fn quic() -> RunResult {
                 let Ok(saddr) = server_ep.local_addr() else { return };
                 let saddr = SocketAddr::new(IpAddr::V4(Ipv4Addr::LOCALHOST), saddr.port());
                 // (a side has closed the connection or the endpoint; the network of this run loses datagrams)
-                let closed = Rc::new((std::cell::Cell::new(false), lossy));
+                let closed: Flags = Rc::new((std::cell::Cell::new(false), lossy, std::cell::Cell::new(None)));
                 // streams the server has read to their end; streams the client has opened, per direction
                 let served = Rc::new(std::cell::Cell::new(0usize));
                 let opened = Rc::new(std::cell::Cell::new([0usize; 2]));
@@ -216,19 +240,21 @@ fn quic() -> RunResult {
                             Close::ServerConn(at) => {
                                 sleep(Duration::from_micros(at)).await;
                                 closed.0.set(true);
+                                closed.2.set(Some(std::time::Instant::now()));
                                 conn.close(VarInt::from_u32(7), b"server closes");
                             }
                             Close::ServerEndpoint(at) => {
                                 sleep(Duration::from_micros(at)).await;
                                 closed.0.set(true);
+                                closed.2.set(Some(std::time::Instant::now()));
                                 server_ep.close(VarInt::from_u32(8), b"endpoint closes");
                             }
                             _ => {}
                         }
                         // never stranded: whatever was pending resolves
                         for t in tasks {
-                            if timeout(BOUND, t).await.is_err() {
-                                errs.push("stranded", format!("a server-side stream or datagram task was still pending {BOUND:?} after the connection ended"));
+                            if !settled(t, &closed).await {
+                                errs.push("stranded", format!("a server-side stream, datagram or accept task was still pending {BOUND:?} after {}", if closed.0.get() { "the connection or endpoint was closed" } else { "it started (on a network without loss)" }));
                                 return;
                             }
                         }
@@ -319,7 +345,10 @@ fn quic() -> RunResult {
                                         let mut nap = 50u64;
                                         let mut waited = 0u64;
                                         while opened.get()[dir] < n_dir[dir] && !closed.0.get() && conn.close_reason().is_none() {
-                                            if waited > BOUND.as_micros() as u64 {
+                                            if waited > BOUND.as_micros() as u64 * if lossy { 10 } else { 1 } {
+                                                if lossy {
+                                                    return false;
+                                                }
                                                 errs.push("stranded", format!("stream {k} (opened as number {rank} of its direction, limit {max_streams}) is held open until all {} are open; {BOUND:?} later only {} are: a task waiting in open_*_wait was not served although the limit allows it", n_dir[dir], opened.get()[dir]));
                                                 return false;
                                             }
@@ -354,6 +383,7 @@ fn quic() -> RunResult {
                         if let Close::ClientConn(at) = close {
                             sleep(Duration::from_micros(at)).await;
                             closed.0.set(true);
+                                closed.2.set(Some(std::time::Instant::now()));
                             conn.close(VarInt::from_u32(9), b"client closes");
                         }
                         let n = tasks.len();
@@ -362,8 +392,8 @@ fn quic() -> RunResult {
                             if i == 0 && close == Close::AtEnd {
                                 continue;
                             }
-                            if timeout(BOUND, t).await.is_err() {
-                                errs.push("stranded", format!("client task {i} of {n} (streams and datagrams) was still pending {BOUND:?} after {}", if closed.0.get() { "the connection was closed" } else { "it started" }));
+                            if !settled(t, &closed).await {
+                                errs.push("stranded", format!("client task {i} of {n} (streams and datagrams) was still pending {BOUND:?} after {}", if closed.0.get() { "the connection was closed" } else { "it started (on a network without loss)" }));
                                 return;
                             }
                         }
@@ -371,7 +401,10 @@ fn quic() -> RunResult {
                             // finishing a stream yields end-of-stream on the peer: the server reads every stream to its end
                             let (mut nap, mut waited) = (50u64, 0u64);
                             while served.get() < streams.len() && errs.is_empty() && conn.close_reason().is_none() {
-                                if waited > BOUND.as_micros() as u64 {
+                                if waited > BOUND.as_micros() as u64 * if lossy { 10 } else { 1 } {
+                                    if lossy {
+                                        break;
+                                    }
                                     errs.push("stranded", format!("the client wrote and finished {} streams; {BOUND:?} later the server has read only {} of them to their end", streams.len(), served.get()));
                                     break;
                                 }
@@ -380,12 +413,15 @@ fn quic() -> RunResult {
                                 nap = (nap * 2).min(100_000);
                             }
                             closed.0.set(true);
+                                closed.2.set(Some(std::time::Instant::now()));
                             conn.close(VarInt::from_u32(0), b"done");
                         }
                     })
                 };
                 let _ = client.await;
-                let _ = timeout(BOUND, server).await.map_err(|_| errs.push("stranded", "the server side did not finish after the client was done".to_string()));
+                if !settled(server, &closed).await {
+                    errs.push("stranded", "the server side did not finish after the client was done".to_string());
+                }
                 let _ = timeout(Duration::from_secs(5), client_ep.shutdown()).await;
                 let _ = timeout(Duration::from_secs(5), server_ep.shutdown()).await;
             });
@@ -398,7 +434,7 @@ fn quic() -> RunResult {
 
 /// The server's side of one stream: read everything (chunked, paced), check it against the plan named
 /// in the header, echo it on a bidirectional stream.
-async fn serve(rx: &mut compio_quic::RecvStream, mut tx: Option<&mut compio_quic::SendStream>, streams: &[StreamPlan], errs: &Errs, closed: &Rc<(std::cell::Cell<bool>, bool)>, seed: u64) {
+async fn serve(rx: &mut compio_quic::RecvStream, mut tx: Option<&mut compio_quic::SendStream>, streams: &[StreamPlan], errs: &Errs, closed: &Flags, seed: u64) {
     let mut got: Vec<u8> = Vec::new();
     let mut plan: Option<(usize, StreamPlan)> = None;
     let mut clean_end = false;
@@ -469,7 +505,7 @@ async fn serve(rx: &mut compio_quic::RecvStream, mut tx: Option<&mut compio_quic
 /// An operation failed: fine once a side has closed the connection or the endpoint, a broken connection
 /// before that — unless the network loses datagrams: enough of them lost in a row let a connection time out,
 /// which is QUIC's answer to such a network and not a defect (the runs without loss are the judge of this).
-fn broken(errs: &Errs, closed: &Rc<(std::cell::Cell<bool>, bool)>, what: &str, e: &dyn std::fmt::Display) {
+fn broken(errs: &Errs, closed: &Flags, what: &str, e: &dyn std::fmt::Display) {
     if !closed.0.get() && !closed.1 {
         errs.push("stream-broken", format!("{what} failed with ({e}) although nobody has closed the connection"));
     }
